@@ -182,6 +182,23 @@ func RunC06(c *Ctx) {
 	corpusWorkload(c, false, func(entry string, cc gen.CorpusCase) {
 		one(entry, cc.Text)
 	})
+	// the same statement as second element of a list: nothing in it may sit at offset 0
+	second := func(entry, text string) {
+		switch ListOf(entry) {
+		case "ddls":
+			one("ddls", "DROP TABLE x;\n"+text)
+			one("statements", "SELECT 1; "+text)
+		case "dmls":
+			one("dmls", "DELETE FROM x WHERE TRUE;\n"+text)
+		case "statements":
+			one("statements", "SELECT 1;\n"+text)
+		}
+	}
+	corpusWorkload(c, false, func(entry string, cc gen.CorpusCase) {
+		if len(cc.Text) <= 1500 {
+			second(entry, cc.Text)
+		}
+	})
 	idx := 0
 	for _, s := range typeSeeds {
 		if c.Mine(idx) {
@@ -194,6 +211,9 @@ func RunC06(c *Ctx) {
 			return
 		}
 		one(gs.S.Entry, gs.Text)
+		if gs.Systematic && gs.Opts == renderPolicies[0] && len(gs.Text) <= 1500 {
+			second(gs.S.Entry, gs.Text)
+		}
 	})
 	nearMissWorkload(c, func(entry, input string) {
 		if len(input) <= 1200 { // every node costs a re-parse of its substring and of the spliced text
